@@ -52,7 +52,7 @@ type c16Rig struct {
 var errInjectedDial = errors.New("verif: injected dial failure")
 
 // c16 fault kinds: where and how an attempt is disturbed
-var c16Faults = []string{"none", "dial-fails", "drop-request", "drop-host-inputs", "cut-after-host-inputs", "drop-renter-signatures", "corrupt-renter-contract-signature", "corrupt-renter-input-signature", "truncate-renter-signatures", "drop-final-response", "corrupt-host-inputs", "corrupt-final-set", "corrupt-host-contract-signature", "corrupt-host-renewal-signature"}
+var c16Faults = []string{"none", "dial-fails", "drop-request", "drop-host-inputs", "cut-after-host-inputs", "drop-renter-signatures", "corrupt-renter-contract-signature", "corrupt-renter-input-signature", "truncate-renter-signatures", "drop-final-response", "corrupt-host-inputs", "corrupt-final-set", "corrupt-host-contract-signature", "corrupt-host-renewal-signature", "final-set-without-renter-inputs", "host-answers-with-foreign-set"}
 
 func (c *c16Rig) faultHook(kind string, armed *bool) simrhp.Hook {
 	e := c.e
@@ -123,11 +123,27 @@ func (c *c16Rig) faultHook(kind string, armed *bool) simrhp.Hook {
 				drop(&m.HostInputs)
 			}
 			return fire(simrhp.Pass)
-		case kind == "corrupt-final-set" && step == 3:
+		case kind == "host-answers-with-foreign-set" && step == 2:
+			return fire(simrhp.Impersonate)
+		case (kind == "corrupt-final-set" || kind == "final-set-without-renter-inputs") && step == 3:
 			bump := func(set []types.V2Transaction) {
-				if len(set) > 0 {
-					set[len(set)-1].MinerFee = set[len(set)-1].MinerFee.Add(types.NewCurrency64(1))
+				if len(set) == 0 {
+					return
 				}
+				t := &set[len(set)-1]
+				if kind == "corrupt-final-set" {
+					t.MinerFee = t.MinerFee.Add(types.NewCurrency64(1))
+					return
+				}
+				// the host's final transaction no longer spends anything of the
+				// renter's (as if funded by somebody else)
+				var keep []types.V2SiacoinInput
+				for _, in := range t.SiacoinInputs {
+					if in.Parent.SiacoinOutput.Address != c.rw.Address() {
+						keep = append(keep, in)
+					}
+				}
+				t.SiacoinInputs = keep
 			}
 			switch m := o.(type) {
 			case *proto4.RPCFormContractThirdResponse:
@@ -421,11 +437,29 @@ func sortStrings(s []string) {
 func runC16(e *sim.Env) {
 	c := &c16Rig{}
 	two := e.Chance(2, 3)
-	c.rhpRig = newRHPRigN(e, "C16", simrhp.TypedRelay(func(n int, id types.Specifier, step int, st simrhp.Step, o proto4.Object, raw []byte) simrhp.Action {
+	c.rhpRig = newRHPRigN(e, "C16", simrhp.TypedRelayAnswering(func(n int, id types.Specifier, step int, st simrhp.Step, o proto4.Object, raw []byte) simrhp.Action {
 		if c.hook != nil {
 			return c.hook(n, id, step, st, o, raw)
 		}
 		return simrhp.Pass
+	}, func(n int, id types.Specifier, step int, renterMsg proto4.Object) proto4.Object {
+		// "host-answers-with-foreign-set": a host that takes the renter's
+		// signatures and answers with a final set that is not the agreed
+		// transaction and spends nothing of the renter's (it records and
+		// broadcasts nothing)
+		// (shaped like the real thing - one contract, or one renewal - so that
+		// the renter gets as far as comparing it with its own transaction)
+		formed := []types.V2Transaction{{MinerFee: types.NewCurrency64(1), FileContracts: []types.V2FileContract{{}}}}
+		renewed := []types.V2Transaction{{MinerFee: types.NewCurrency64(1), FileContractResolutions: []types.V2FileContractResolution{{Resolution: &types.V2FileContractRenewal{}}}}}
+		switch renterMsg.(type) {
+		case *proto4.RPCFormContractSecondResponse:
+			return &proto4.RPCFormContractThirdResponse{Basis: c.s.cm.Tip(), TransactionSet: formed}
+		case *proto4.RPCRenewContractSecondResponse:
+			return &proto4.RPCRenewContractThirdResponse{Basis: c.s.cm.Tip(), TransactionSet: renewed}
+		case *proto4.RPCRefreshContractSecondResponse:
+			return &proto4.RPCRefreshContractThirdResponse{Basis: c.s.cm.Tip(), TransactionSet: renewed}
+		}
+		return nil
 	}), two)
 	c.relation = "same-tip"
 	if two {
@@ -549,7 +583,7 @@ func runC16(e *sim.Env) {
 			c.hostWalletBehind = true
 			e.Fault("host-wallet-behind-its-chain")
 		}
-		kind := c16Faults[e.Pick(3, 1, 1, 1, 1, 1, 1, 1, 1, 1, 1, 1, 1, 1)]
+		kind := c16Faults[e.Pick(3, 1, 1, 1, 1, 1, 1, 1, 1, 1, 1, 1, 1, 1, 1, 1)]
 		c.attempt(op, kind)
 		c.leaveUnconfirmed = false
 		c.hostWalletBehind = false
@@ -570,7 +604,7 @@ var _ = sim.NewEnv
 func init() {
 	register(&Prop{
 		ID: "C16", Run: runC16, Quick: 1500, Thorough: 40000, Level: "fault_enumeration",
-		Rule:        "one run = a drawn basis relation between renter and host node (shared node; two nodes at the same tip; renter behind by 1-10 blocks; renter on a fork the host has seen and left; renter on a fork the host never saw - from the start, or only after a contract was formed and confirmed, so that renewals and refreshes meet it too; the host's node moving ahead of the renter's only after a contract was confirmed; a formed contract left unconfirmed (nobody mines) before the next renewal / refresh; the host's wallet 1-4 blocks behind the host's own chain manager; optionally the renter's funds are unconfirmed outputs with pooled parents) and 3-8 form / renew / refresh (full, partial) attempts through the real client and server, each disturbed at one point of the exchange {none, dial fails, request dropped, host inputs dropped, stream cut after host inputs, renter signatures dropped / truncated mid-message, renter contract signature corrupted, renter input signature corrupted, final response dropped after the host recorded the contract, host inputs falsified, final set falsified, the host's signature on the new contract or on the renewal corrupted in its final transaction}; oracles: success => renter and host hold the same doubly signed contract, the returned set is accepted by a fresh pool at the host's tip and, mined, creates exactly that contract with the agreed funding; failure => either the host completed the exchange (contract recorded AND its transaction pooled) or nobody keeps a trace: Balance and SpendableOutputs of BOTH wallets are identical to before; a final undisturbed formation must still succeed; distinct = (op, relation, fault, outcome) traces",
+		Rule:        "one run = a drawn basis relation between renter and host node (shared node; two nodes at the same tip; renter behind by 1-10 blocks; renter on a fork the host has seen and left; renter on a fork the host never saw - from the start, or only after a contract was formed and confirmed, so that renewals and refreshes meet it too; the host's node moving ahead of the renter's only after a contract was confirmed; a formed contract left unconfirmed (nobody mines) before the next renewal / refresh; the host's wallet 1-4 blocks behind the host's own chain manager; optionally the renter's funds are unconfirmed outputs with pooled parents) and 3-8 form / renew / refresh (full, partial) attempts through the real client and server, each disturbed at one point of the exchange {none, dial fails, request dropped, host inputs dropped, stream cut after host inputs, renter signatures dropped / truncated mid-message, renter contract signature corrupted, renter input signature corrupted, final response dropped after the host recorded the contract, host inputs falsified, final set falsified (fee changed; the renter's inputs taken out), a host that takes the renter's signatures and answers with a foreign transaction while recording nothing, the host's signature on the new contract or on the renewal corrupted in its final transaction}; oracles: success => renter and host hold the same doubly signed contract, the returned set is accepted by a fresh pool at the host's tip and, mined, creates exactly that contract with the agreed funding; failure => either the host completed the exchange (contract recorded AND its transaction pooled) or nobody keeps a trace: Balance and SpendableOutputs of BOTH wallets are identical to before; a final undisturbed formation must still succeed; distinct = (op, relation, fault, outcome) traces",
 		Real:        []string{"rhp4.Server (form/renew/refresh handlers)", "rhp4 RPCFormContract / RPCRenewContract / RPCRefreshContract* client", "wallet.SingleAddressWallet x2 (reservations)", "chain.Manager x1-2", "testutil.EphemeralContractor behind a recording wrapper"},
 		Stub:        []string{"transport: simrhp in-memory streams with typed relay and dial failures", "disk: simdisk.DB"},
 		Assumptions: []string{"renew / refresh attempts are only issued when renter and host share a node (the contract element must be known to both)"},
